@@ -202,7 +202,7 @@ CHECKS = {
         category="fault_enumeration",
         text="(a) harness-owned schedules: all sequences of <=2/<=3 sessions over 14 session kinds (11 failing, faults injected at body (Exception, KeyboardInterrupt, SystemExit) / encoder / flush-time "
              "backend write / end_write / end_read / begin_write / begin_read) on handles living in three processes, with a lock probe from a fresh process after every session; "
-             "(b) a handle constructor of another process held (harness-owned gate) right before its first lock acquisition while this process creates the library and completes sessions; (c) real 8-16 process schedules, the processes reaching the library through three spellings of its path (plain, sub/.., symlinked directory), with random delays whose oracle (timestamps taken inside the protected body, hand-over after failing sessions) "
+             "(b) a handle constructor of another process held (harness-owned gate) right before its first lock acquisition while this process creates the library and completes sessions; (c) another process sitting inside a session (gate) while this one asks with timeout 0 / 0.0 / 0.05 / 0.3: TimeoutError, never an entered session; (d) handles pickled and unpickled after they were used; (e) real 8-16 process schedules with private scratch directories per process, the processes reaching the library through three spellings of its path (plain, sub/.., symlinked directory), with random delays whose oracle (timestamps taken inside the protected body, hand-over after failing sessions) "
              "cannot misfire on correct locking. Real interleavings are sampled, only session-granular schedules are exhaustive.",
         design_ref="DESIGN.md section 5, C04",
         note="Threads sharing a handle and nested same-process sessions are outside the claim; CLOCK_MONOTONIC is system-wide on Linux; fault injection by "
